@@ -41,7 +41,7 @@ SLOTS = {
     "KIsNull": ["term"], "KNotNull": ["term"], "KNot": ["term"], "KAll": ["term"], "KEmpty": [],
     "KCase": ["_cases_crit", "_cases_term", "_else"], "KFunc": ["args"], "KTuple": ["values"], "KArray": ["values"],
     "KNested": ["left", "right", "nested"], "KAgg": ["args", "_filters"],
-    "KAnalytic": ["args", "_filters", "_partition", "_orderbys"], "KExtract": ["args", "field"], "KExists": ["container"],
+    "KAnalytic": ["args", "_filters", "_partition", "_orderbys"], "KExtract": ["field"], "KExists": ["container"],
     "KQuery": ["_from", "_insert_table", "_update_table", "_with", "_selects", "_columns", "_values", "_wheres", "_prewheres",
                "_groupbys", "_havings", "_orderbys", "_joins", "_updates", "_select_star_tables"],
     "KClickHouse": ["_from", "_insert_table", "_update_table", "_with", "_selects", "_columns", "_values", "_wheres",
@@ -53,6 +53,7 @@ SLOTS = {
 IGNORED = {
     "KBitAnd": {"value": "a ValueWrapper around a number: no table below it"},
     "KValue": {"value": "payload; a Term payload is exercised by the python-only oracle family"},
+    "KExtract": {"args": "inherited from Function; the constructor only ever puts the date-part literal there"},
     "KQuery": {"_using": "PostgreSQL DELETE..USING tables (python-only oracle family)", "_force_indexes": "Index terms: no table",
                "_use_indexes": "Index terms: no table", "_unions": "unused attribute"},
     "KClickHouse": {"_using": "see KQuery", "_force_indexes": "no table", "_use_indexes": "no table", "_unions": "unused",
@@ -417,9 +418,7 @@ def _samples():
         return T.Case().when(f(slot, "_cases_crit") == 1, f(slot, "_cases_term")).else_(f(slot, "_else"))
 
     def extract_(slot):
-        x = fn.Extract("YEAR", f(slot, "field"))
-        x.args = x.args + [f(slot, "args")]     # the constructor only puts the date part there; args is inherited from Function
-        return x
+        return fn.Extract("YEAR", f(slot, "field"))
 
     sub = lambda slot, s: Query.from_(A() if slot in (s, None) else C).select("x")    # noqa: E731
     return {
@@ -500,6 +499,7 @@ def extract_table():
     for ctor, mod, name in CLASSES:
         cls = load_class(mod, name)
         vs = static_visited(cls)
+        vs = [s for s in vs if s not in IGNORED.get(ctor, {})]
         for s in vs:
             if s not in SLOTS[ctor]:
                 raise ExtractError("%s.replace_table visits %r which is not a child slot known to the model" % (name, s))
